@@ -65,6 +65,53 @@ def p1(rep):
     return P
 
 
+def _cmp_var(cond, did):
+    """normalise `v OP K` / `K OP v` to (op as if v were on the left, K)"""
+    c = strip(cond)
+    if c is None or c["k"] != "BinaryOperator" or c["op"] not in ("<", "<=", ">", ">="):
+        return None
+    a, b = strip(c["c"][0]), strip(c["c"][1])
+    flip = {"<": ">", "<=": ">=", ">": "<", ">=": "<="}
+    if a is not None and a.get("did") == did and const_value(c["c"][1]) is not None:
+        return c["op"], const_value(c["c"][1])
+    if b is not None and b.get("did") == did and const_value(c["c"][0]) is not None:
+        return flip[c["op"]], const_value(c["c"][0])
+    return None
+
+
+def _single(st):
+    while st is not None and st["k"] == "CompoundStmt" and len(st["c"]) == 1:
+        st = st["c"][0]
+    return st
+
+
+def _clamp_if(st, did, limit):
+    """`if (v > K) v = K2;` (either operand order) -> text when the survivors and K2 are within the limit, "bad" when not;
+    `if (v < L) v = L2;` alone -> "lower"; `if (v < L) v = L2; else if (v > K) v = K2;` -> as the upper clamp when L2 is within
+    the limit; anything else -> None (not a clamp)"""
+    if st is None or st["k"] != "IfStmt":
+        return None
+    cv = _cmp_var(st["c"][0], did)
+    then = _single(st["c"][1])
+    els = _single(st["c"][2]) if len(st["c"]) > 2 else None
+    assign = then is not None and then["k"] == "BinaryOperator" and then["op"] == "=" and strip(then["c"][0]).get("did") == did
+    if cv is None or not assign:
+        return None
+    op, k = cv
+    k2 = const_value(then["c"][1])
+    if op in (">", ">="):
+        if els is not None or k2 is None:
+            return None
+        reach = k if op == ">" else k - 1
+        return ("clamped to %d by the guard at line %d" % (max(reach, k2), st["l"])) if max(reach, k2) <= limit else "bad"
+    # lower clamp
+    if els is None:
+        return "lower"
+    if k2 is None or not (0 <= k2 <= limit):
+        return None
+    return _clamp_if(els, did, limit)
+
+
 def clamped(fn, par, use, did, limit):
     """Is the variable clamped (if (v > K) v = K', K' <= limit) by a preceding
     sibling statement with no write in between?"""
@@ -80,25 +127,11 @@ def clamped(fn, par, use, did, limit):
                 st = sibs[i]
                 if st is None:
                     continue
-                if st["k"] == "IfStmt" and st["c"][2] is None:
-                    cond = strip(st["c"][0])
-                    then = st["c"][1]
-                    while then is not None and then["k"] == "CompoundStmt" and len(then["c"]) == 1:
-                        then = then["c"][0]
-                    if (cond is not None and cond["k"] == "BinaryOperator" and cond["op"] in (">", ">=")
-                            and strip(cond["c"][0]).get("did") == did and then is not None
-                            and then["k"] == "BinaryOperator" and then["op"] == "=" and strip(then["c"][0]).get("did") == did):
-                        k = const_value(cond["c"][1])
-                        k2 = const_value(then["c"][1])
-                        if k is not None and k2 is not None:
-                            reach = k if cond["op"] == ">" else k - 1     # values that survive the test
-                            if max(reach, k2) <= limit:
-                                return "clamped to %d by the guard at line %d" % (max(reach, k2), st["l"])
-                            return None
-                    # a lower clamp `if (v < 0) v = 0` does not write anything harmful
-                    if (cond is not None and cond["k"] == "BinaryOperator" and cond["op"] in ("<", "<=")
-                            and strip(cond["c"][0]).get("did") == did):
-                        continue
+                verdict = _clamp_if(st, did, limit)
+                if verdict == "lower":
+                    continue
+                if verdict is not None:
+                    return verdict if verdict != "bad" else None
                 for x in walk(st):
                     tgt = None
                     if x["k"] in ("BinaryOperator", "CompoundAssignOperator") and x.get("op", "").endswith("=") and x["op"] not in ("==", "!=", "<=", ">="):
@@ -432,7 +465,12 @@ def run(tier, only=None):
     f = common.extract("srcpos.c", all_trees=True)
     p2(rep, f, P)
     p3(rep, f)
-    p7(rep, f)
+    try:
+        p7(rep, f)
+    except AnalysisBroken as e:
+        if not rep.violations:          # a layout violation already reported by P1/P2 explains a vanished packing shift
+            raise
+        rep.note("P7 not evaluated: %s" % e)
     fi = common.extract("include.c", all_trees=True)
     p4(rep, fi)
     p5(rep)
